@@ -301,6 +301,23 @@ def op_const_val(op):
     return c.get("val")
 
 
+def op_const_deep(b, op, depth=0):
+    """constant value of an operand, looking through single-definition copies and int casts"""
+    v = op_const_val(op)
+    if v is not None or depth > 6:
+        return v
+    l = op_local(op)
+    if l is None:
+        return None
+    ds = b.defs().get(l, [])
+    if len(ds) != 1 or ds[0][0] != "stmt" or ds[0][3]["k"] != "assign":
+        return None
+    rv = ds[0][3]["rv"]
+    if rv["k"] in ("use", "cast"):
+        return op_const_deep(b, rv["op"], depth + 1)
+    return None
+
+
 def place_fields(pl):
     """list of field names in a place projection"""
     return [e.get("n") for e in pl.get("p", []) if isinstance(e, dict) and "f" in e]
